@@ -12,7 +12,7 @@ EXPLANATION = (
     "Pre-envelope legacy instruments are produced by the reference encoder with symbolic legacy point bytes."
 )
 BOUNDS = {"quick": {"sample slots": "every non-empty subset of {0, 1, 64, 127} (15)", "sample data": "lengths 0..8 (seeded per obligation) x 3 formats x 2 channel modes, every byte symbolic",
-                    "envelopes": "point counts 0..4 per envelope (7 envelopes), x u16, y over the envelope's 16-bit window, sustain/loop points 0..255, flags, ctl/gain/velocity u8",
+                    "envelopes": "point counts 0..4 and 13 (past the 12-point legacy table; 2 symbolic points) per envelope (7 envelopes), x u16, y over the envelope's 16-bit window, sustain/loop points 0..255, flags, ctl/gain/velocity u8",
                     "note map": "119 entries: 34 symbolic (both ends, the 96-entry legacy boundary, 6 seeded), the rest seeded", "record fields": "every field at its struct width", "legacy": "pre-envelope records with 0..3 active points, all point bytes symbolic"},
           "thorough": {"envelopes": "point counts 0..4, 12, 13, 64", "sample data": "all lengths 0..8 for every format/channel combination"}}
 OUTSIDE = ["sample names / instrument names ending in NUL bytes (stored NUL-padded, so trailing NULs are not representable)", "more than 255 envelope points or sustain/loop point indices above 255 (mirrored in 8-bit legacy fields of the record)",
@@ -137,8 +137,8 @@ def envelope_obs(tier, rnd):
     obs = []
     counts = [0, 1, 2, 3, 4] if tier == "quick" else [0, 1, 2, 3, 4, 12, 13, 64]
     for ei, (attr, chnm, ymin) in enumerate(ENVS):
-        for n in ([counts[(ei + k) % len(counts)] for k in range(2)] if tier == "quick" else counts):
-            nsym = min(n, 6)
+        for n in ([counts[(ei + k) % len(counts)] for k in range(2)] + [13] if tier == "quick" else counts):
+            nsym = min(n, 6) if (tier != "quick" or n <= 4) else 2
             params = []
             pts = []
             for i in range(n):
